@@ -59,6 +59,17 @@ Theorem C19_bep42_agrees_with_reference : forall i ip,
     =? N.shiftr (be_to_N (firstn 3 i)) 3)).
 Proof. exact bep42_agrees_with_reference. Qed.
 
+(* exactly the private (10/8, 172.16/12, 192.168/16), loopback (127/8) and link-local (169.254/16) addresses are
+   exempt: the exemption is the reference table over the first two octets, for every IPv4 address *)
+Theorem C19_bep42_exempt_is_reference_table : forall ip, ip < 2 ^ 32 -> ip_exempt ip = spec_exempt16 (ip / 65536).
+Proof. exact exempt_is_reference_table. Qed.
+
+(* two ids that differ in their first bit are both valid exactly at the exempt addresses (the /16 sweep of the
+   correspondence check rests on this: it asks the implementation about both ids under every /16 prefix) *)
+Theorem C19_bep42_flipped_pair_valid_iff_exempt : forall i ip, (2 < length i)%nat ->
+  is_valid_for_ip i ip && is_valid_for_ip (flip_first_bit i) ip = ip_exempt ip.
+Proof. exact flipped_pair_valid_iff_exempt. Qed.
+
 (* non-vacuity: concrete well-formed ids; BEP42 test vector 124.31.75.21 / r = 1 *)
 Example C19_nonvacuous :
   id_wf (N_to_be 20 0x5fbfbff10c5d6a4ec8a88e4c6ab4c28b95eee401) = true
@@ -80,4 +91,6 @@ Print Assumptions C19_from_str_exact.
 Print Assumptions C19_display_roundtrip.
 Print Assumptions C19_bep42_from_ipv4_valid.
 Print Assumptions C19_bep42_agrees_with_reference.
+Print Assumptions C19_bep42_exempt_is_reference_table.
+Print Assumptions C19_bep42_flipped_pair_valid_iff_exempt.
 Print Assumptions C19_nonvacuous.
